@@ -280,6 +280,11 @@ def run_history(case: dict) -> dict:  # noqa: C901  pylint: disable=too-many-bra
 
                 recorder = iotrace.Recorder()
                 iotrace.install([root], plan=recorder, audit=True)
+            if case.get('tolerate_stale_writer') and op['op'] == 'delete':
+                # deletion is documented as an exclusive maintenance operation ("when no process is accessing the repository"):
+                # every client is restarted around it (a handle with a stale index snapshot would otherwise remove the loose copy and
+                # then be refused by SQLite, or later treat a deleted object as still packed)
+                world.close()
             try:
                 world.apply(op)
             except Exception as exc:  # noqa: BLE001 - an operation of a legal history must not raise
@@ -298,6 +303,8 @@ def run_history(case: dict) -> dict:  # noqa: C901  pylint: disable=too-many-bra
                     world.problem(f'op-raised:{op["op"]}:{type(exc).__name__}',
                                   f'{op["op"]} raised {exc!r} :: {traceback.format_exc()[-700:]}')
             finally:
+                if case.get('tolerate_stale_writer') and op['op'] == 'delete':
+                    world.close()
                 if recorder is not None:
                     blind = list(iotrace.BLIND)
                     iotrace.uninstall()
